@@ -45,6 +45,7 @@ class SimTor(CtlPeer):
         self.conf_order = []
         self.setconf_policy = None  # callable(items) -> None | Reply (reject)
         self.on_setconf_applied = None
+        self.getconf_shows_defaults = True   # False: GETCONF answers the bare keyword for an unset option (its default is only in config/defaults)
         self.fail_next = {}         # verb -> Reply to answer once (fault injection)
         self.verbs['GETINFO'] = self._getinfo
         self.verbs['GETCONF'] = self._getconf
@@ -117,7 +118,7 @@ class SimTor(CtlPeer):
             o = self.conf.get(n.lower())
             if o is None:
                 return err(552, 'Unrecognized configuration key "%s"' % n)
-            vals = o.values if o.values is not None else o.default
+            vals = o.values if o.values is not None else (o.default if self.getconf_shows_defaults else None)
             if vals is None or len(vals) == 0 and o.values is None:
                 lines.append(o.name)
             elif len(vals) == 0:
